@@ -264,6 +264,58 @@ def visitL (T : Tables) : List PT → List Ast
   | x :: xs => visit T x :: visitL T xs
 end
 
+/-! ### the guard: no `a[s,]` (one slice + trailing comma) unless the source handles it -/
+
+mutual
+/-- `cf b pt`: `b` (the source is comma-aware) or `pt` has no single slice with a trailing comma -/
+def cf (b : Bool) : PT → Bool
+  | .ternary d0 d1 e => cf b d0 && cf b d1 && cf b e
+  | .exprD d => cf b d
+  | .disj cs => cfL b cs
+  | .conj cs => cfL b cs
+  | .invNot i => cf b i
+  | .invC c => cf b c
+  | .cmp f _ xs => cf b f && cfL b xs
+  | .bor l r => cf b l && cf b r
+  | .borT x => cf b x
+  | .bxor l r => cf b l && cf b r
+  | .bxorT x => cf b x
+  | .band l r => cf b l && cf b r
+  | .bandT x => cf b x
+  | .shift l _ r => cf b l && cf b r
+  | .shiftT x => cf b x
+  | .sum l _ r => cf b l && cf b r
+  | .sumT x => cf b x
+  | .term l _ r => cf b l && cf b r
+  | .termT x => cf b x
+  | .factor _ x => cf b x
+  | .factorT x => cf b x
+  | .power x e => cf b x && cf b e
+  | .powerT x => cf b x
+  | .awaitP p => cf b p
+  | .awaitT p => cf b p
+  | .attr p _ => cf b p
+  | .call p _ args => cf b p && cfL b args
+  | .subscr p ss tc => cf b p && cfL b ss && (b || !(tc && ss.length == 1))
+  | .primA a => cf b a
+  | .slice lo hi st => cf b lo && cf b hi && cf b st
+  | .sliceE e => cf b e
+  | .absent => true
+  | .name _ => true
+  | .true_ => true
+  | .false_ => true
+  | .none_ => true
+  | .ellipsis => true
+  | .num _ => true
+  | .str _ => true
+  | .group e => cf b e
+  | .tuple xs => cfL b xs
+  | .list xs => cfL b xs
+def cfL (b : Bool) : List PT → Bool
+  | [] => true
+  | x :: xs => cf b x && cfL b xs
+end
+
 /-! ## values and Python's operators on them -/
 
 inductive Err where
